@@ -84,7 +84,7 @@ func errorReturned(f *ssa.Function, call *ssa.Call) (bool, string) {
 			seen[x] = true
 			for _, ins := range x.Instrs {
 				if ret, ok := ins.(*ssa.Return); ok {
-					ev := ret.Results[len(ret.Results)-1]
+					ev := flow.Ret(ret)[len(ret.Results)-1]
 					if !valueDerivesFrom(ev, derived, 0) {
 						okAll = false
 					}
@@ -495,7 +495,7 @@ func checkBiMapOrientation(c *Ctx, res *report.Result, rule string, ns, sa bool)
 				}
 			}
 			if ret, isR := ins.(*ssa.Return); isR && len(ret.Results) == 2 {
-				if mi, isMI := ret.Results[0].(*ssa.MakeInterface); isMI && cellName(mi.X) == "forward" {
+				if mi, isMI := flow.Ret(ret)[0].(*ssa.MakeInterface); isMI && cellName(mi.X) == "forward" {
 					retOK = true
 				}
 			}
@@ -522,8 +522,8 @@ func checkBiMapOrientation(c *Ctx, res *report.Result, rule string, ns, sa bool)
 				ok := false
 				for _, b := range mf.Blocks {
 					for _, ins := range b.Instrs {
-						if ret, isR := ins.(*ssa.Return); isR && !flow.IsNilConst(ret.Results[0]) {
-							v := flow.Strip(ret.Results[0])
+						if ret, isR := ins.(*ssa.Return); isR && !flow.IsNilConst(flow.Ret(ret)[0]) {
+							v := flow.Strip(flow.Ret(ret)[0])
 							if _, fld, isF := flow.FieldLoadOf(v); isF && fld == want {
 								ok = true
 							}
@@ -974,8 +974,8 @@ func checkBypassUntouched(c *Ctx, res *report.Result, rule string) {
 		okRet := false
 		for _, ins := range call.Block().Instrs {
 			if ret, isR := ins.(*ssa.Return); isR && len(ret.Results) == 2 {
-				e0, ok0 := ret.Results[0].(*ssa.Extract)
-				e1, ok1 := ret.Results[1].(*ssa.Extract)
+				e0, ok0 := flow.Ret(ret)[0].(*ssa.Extract)
+				e1, ok1 := flow.Ret(ret)[1].(*ssa.Extract)
 				if ok0 && ok1 && e0.Tuple == ssa.Value(call) && e1.Tuple == ssa.Value(call) && e0.Index == 0 && e1.Index == 1 {
 					okRet = true
 				}
